@@ -83,7 +83,17 @@ type AToken struct {
 	NbfRel *int `json:"nbfRel,omitempty"`
 	// Malform: "field:variant" edits applied to the encoded token after signing (C11)
 	Malform []string `json:"malform,omitempty"`
+	// PreAttach: blocks attached to the token right after it is issued, i.e. before any token citing it
+	// is issued (C13)
+	PreAttach int `json:"preAttach,omitempty"`
 }
+
+// preBlock: the k-th block pre-attached to token tid (valid CBOR: [tid, k])
+func preBlock(tid, k int) ipld.Block {
+	return rawCborBlock([]byte{0x82, 0x18, byte(24 + tid%200), 0x18, byte(24 + k)})
+}
+
+func preBlockID(tid, k int) int { return 20000 + 100*tid + k }
 
 type ADesc struct {
 	Can     string `json:"can"`
@@ -247,7 +257,20 @@ func (m NbMap) ToIPLD() (ipld.Node, error) {
 		ma.AssembleKey().AssignString(k)
 		switch v := m.F[k].(type) {
 		case int64:
-			ma.AssembleValue().AssignInt(v)
+			switch v {
+			case specialBase: // empty list
+				la, _ := ma.AssembleValue().BeginList(0)
+				la.Finish()
+			case specialBase + 1: // empty map
+				mm, _ := ma.AssembleValue().BeginMap(0)
+				mm.Finish()
+			case specialBase + 2:
+				ma.AssembleValue().AssignString("")
+			case specialBase + 3:
+				ma.AssembleValue().AssignBool(false)
+			default:
+				ma.AssembleValue().AssignInt(v)
+			}
 		case ipld.Link:
 			ma.AssembleValue().AssignLink(v)
 		default:
@@ -294,6 +317,26 @@ func (nbReader) Read(input any) (NbMap, failure.Failure) {
 		case datamodel.Kind_Link:
 			l, _ := v.AsLink()
 			out.F[ks] = l
+		case datamodel.Kind_List:
+			if v.Length() != 0 {
+				return NbMap{}, schema.NewSchemaError("unsupported caveat kind")
+			}
+			out.F[ks] = int64(specialBase)
+		case datamodel.Kind_Map:
+			if v.Length() != 0 {
+				return NbMap{}, schema.NewSchemaError("unsupported caveat kind")
+			}
+			out.F[ks] = int64(specialBase + 1)
+		case datamodel.Kind_String:
+			if s, _ := v.AsString(); s != "" {
+				return NbMap{}, schema.NewSchemaError("unsupported caveat kind")
+			}
+			out.F[ks] = int64(specialBase + 2)
+		case datamodel.Kind_Bool:
+			if b, _ := v.AsBool(); b {
+				return NbMap{}, schema.NewSchemaError("unsupported caveat kind")
+			}
+			out.F[ks] = int64(specialBase + 3)
 		default:
 			return NbMap{}, schema.NewSchemaError("unsupported caveat kind")
 		}
@@ -556,6 +599,11 @@ func Concretise(w *AWorld) (*CWorld, error) {
 			return nil, fmt.Errorf("issuing token %d: %w", i, err)
 		}
 		cw.D[i] = d
+		for k := 0; k < t.PreAttach; k++ {
+			if err := d.Attach(preBlock(i, k)); err != nil {
+				return nil, fmt.Errorf("attaching to token %d: %w", i, err)
+			}
+		}
 		if prev, dup := cw.idOf[d.Link().String()]; dup {
 			return nil, fmt.Errorf("tokens %d and %d have the same link", prev, i)
 		}
